@@ -67,6 +67,10 @@ func c10Gen(r *rand.Rand, tier string) []Case {
 		"mal # kind=direct op=tr u=1 x=200", "mal # kind=direct op=ibcrecv u=1 x=0", "mal # kind=direct op=cc u=1 x=10",
 		"mal # kind=delayed op=tr u=1 x=200", "mal # kind=delayed op=ibcrecv u=1 x=0",
 		"cc 0 1 1 half", "cc 0 1 1 all # via=ibc", "ce 1 1 1 half", "cc 1 1 1 all # via=ibc"})
+	// fixed case: conversions that name the pair by its contract address, by an account that holds nothing and by one that does
+	out = append(out, Case{"preset 0 0 500 0 0 0 0 0", "preset 1 1 0 0 0 500 0 0", "cc 0 1 1 40", "ce 1 1 1 50",
+		"ccalias 0 2 2 1000 # form=bare", "ccalias 1 2 2 30 # form=bare", "ccalias 0 1 2 100 # form=lower", "ccalias 1 1 2 20 # form=lower",
+		"ccalias 0 1 1 10 # form=0x", "ccalias 1 1 1 10 # form=0x", "tr 1 1 2 half"})
 	for i := 0; i < n; i++ {
 		c := Case{
 			fmt.Sprintf("preset 0 0 %d %d %d 0 0 0", 200+r.Intn(800), r.Intn(500), r.Intn(3)),
@@ -84,7 +88,11 @@ func c10Gen(r *rand.Rand, tier string) []Case {
 					c = append(c, fmt.Sprintf("cc %d %d %d %s", p, u, v, amt()))
 				}
 			case x < 9:
-				c = append(c, fmt.Sprintf("ce %d %d %d %s", p, u, v, amt()))
+				if r.Intn(5) == 0 {
+					c = append(c, fmt.Sprintf("ccalias %d %d %d %s # form=%s", p, u, v, pick(r, []string{"half", "1", fmt.Sprint(1 + r.Intn(2000))}), pick(r, []string{"bare", "bare", "lower", "0x"})))
+				} else {
+					c = append(c, fmt.Sprintf("ce %d %d %d %s", p, u, v, amt()))
+				}
 			case x < 13:
 				c = append(c, fmt.Sprintf("tr %d %d %d %s", p, u, pick(r, []int{0, 0, v}), amt()))
 			case x < 14:
@@ -242,6 +250,29 @@ func c10Exec(c Case) (outs []string, fails []Failure, tags []string) {
 			case "preset":
 				id := vmIdx(f[1])
 				p := &c10Pair{external: f[2] == "1"}
+				// the next contract of the deployer gets an address whose hex form starts with a letter (so that the
+				// address without 0x is a well-formed denomination: see `ccalias`)
+				alpha := func(deployer common.Address) {
+					for n := 0; n < 64; n++ {
+						seq := app.EvmKeeper.GetNonce(env.ctx, deployer)
+						if h := crypto.CreateAddress(deployer, seq).Hex()[2]; (h >= 'a' && h <= 'f') || (h >= 'A' && h <= 'F') {
+							return
+						}
+						acc := app.AccountKeeper.GetAccount(env.ctx, deployer.Bytes())
+						if acc == nil {
+							return
+						}
+						if err := acc.SetSequence(seq + 1); err != nil {
+							panic(err)
+						}
+						app.AccountKeeper.SetAccount(env.ctx, acc)
+					}
+				}
+				if p.external {
+					alpha(kr.GetKey(1).Addr)
+				} else {
+					alpha(modEth)
+				}
 				if !p.external {
 					p.denom = fmt.Sprintf("apeg%d", id)
 					for u := 1; u <= 3; u++ {
@@ -288,7 +319,7 @@ func c10Exec(c Case) (outs []string, fails []Failure, tags []string) {
 				d, _, _, _, _ := dump(p)
 				out = "ok " + d
 				tags = append(tags, "preset")
-			case "cc", "ce", "tr", "burn", "mint", "toggle", "send", "appr", "multi":
+			case "cc", "ce", "tr", "burn", "mint", "toggle", "send", "appr", "multi", "ccalias":
 				p := env.pairs[vmIdx(f[1])]
 				if p == nil {
 					out = "no-pair"
@@ -316,6 +347,22 @@ func c10Exec(c Case) (outs []string, fails []Failure, tags []string) {
 					} else {
 						ok = route(cctx, erc20types.NewMsgConvertCoin(sdk.Coin{Denom: p.denom, Amount: sdkmath.NewIntFromBigInt(x)}, ethOf(r), accOf(s))) == nil
 					}
+				case "ccalias":
+					// MsgConvertCoin whose coin names the pair by the token contract's address (the pair lookup accepts an
+					// address, with or without 0x) instead of by its denomination: nobody holds coins of such a
+					// "denomination", so nothing can be escrowed and nothing may be handed out
+					s, r := vmIdx(f[2]), vmIdx(f[3])
+					x := amount(f[4], app.BankKeeper.GetBalance(env.ctx, accOf(s), p.denom).Amount.BigInt())
+					f[4] = x.String()
+					alias := p.contract.Hex()[2:]
+					switch kv["form"] {
+					case "lower":
+						alias = strings.ToLower(alias)
+					case "0x":
+						alias = p.contract.Hex()
+					}
+					ok = route(cctx, erc20types.NewMsgConvertCoin(sdk.Coin{Denom: alias, Amount: sdkmath.NewIntFromBigInt(x)}, ethOf(r), accOf(s))) == nil
+					tags = append(tags, "convert-names-pair-by-contract-address:"+kv["form"])
 				case "ce":
 					s, r := vmIdx(f[2]), vmIdx(f[3])
 					x := amount(f[4], bal(p, ethOf(s)))
